@@ -63,9 +63,10 @@ def value_ok(v):
     """which value strings the grammar of the skeleton's format can carry (see DESIGN.md C07 for the reasons)"""
     if not (1 <= len(v) <= VLEN):
         return False
-    if v[0] == " ":
+    if v[0] == " " or v[-1] == " ":
         # a comma-list item with a leading blank is read as free text (issue #198 heuristic); leading blanks are
-        # also stripped from unquoted values
+        # also stripped from unquoted values; a value ENDING in a blank written before the separator '; ' produces
+        # the text of the ' ; ' style (the same bytes are a consistent line of another dialect)
         return False
     if FMT in ("gff3", "gff2"):
         if not QUOTED and v[0] == '"' and v[-1] == '"':
